@@ -9,7 +9,7 @@ P=${SEEDPREFIX:-seed}; W=/tmp/$P-$ID; O=/tmp/$P-$ID-out
 export GOFLAGS=-mod=mod GOPROXY=off
 cd $W || exit 2
 # start from the delivered patch, whatever state the worktree was left in
-git checkout -q -- . && git clean -fdq && git apply $O/patch.diff || { echo "$ID PATCH DOES NOT APPLY"; exit 1; }
+git reset -q && git checkout -q -- . && git clean -fdq && git apply $O/patch.diff || { echo "$ID PATCH DOES NOT APPLY"; exit 1; }
 DEMOS=$(ls $O/*_test.go)
 pkgdir() { # package clause -> directory
   local pk=$(grep -m1 '^package ' $1 | awk '{print $2}'); pk=${pk%_test}
